@@ -66,7 +66,14 @@ impl BootInformationHeader {
 
 impl Header for BootInformationHeader {
     fn payload_len(&self) -> usize {
-        self.total_size as usize - mem::size_of::<Self>()
+        // Must not underflow for a (corrupt) total size smaller than the
+        // header itself. `total_size()` still reports the stored value, so
+        // that such a structure is rejected as `ShorterThanHeader`.
+        (self.total_size as usize).saturating_sub(mem::size_of::<Self>())
+    }
+
+    fn total_size(&self) -> usize {
+        self.total_size as usize
     }
 
     fn set_size(&mut self, total_size: usize) {
